@@ -551,7 +551,8 @@ class LocalConcurrences:
                 # Do not change the signs in the matrix itself, they mark the cells used by matches
                 slice = slice.copy()
         if positivize:
-            neg_idx = slice < 0
+            # Only the marks of earlier matches: excluded cells (-inf) stay excluded
+            neg_idx = (slice < 0) & np.isfinite(slice)
             slice[neg_idx] = -slice[neg_idx]
         return slice
 
